@@ -19,10 +19,12 @@ TEXTS = {
   level_text=("Bounded liveness in virtual time. (a) Exhaustive: every assignment of {deliver, drop, duplicate, delay past the next ones} to the first K datagrams of a run "
               "(both directions interleaved; K=6 quick / 8 thorough) for 6/12 hand-picked configurations covering both drives (flush+interval, Update/Check). "
               "(b) Sampled: long scripts with loss regimes and outages up to 10 min. After the script a fair network; all accepted bytes must be read and WaitSnd()==0 at both ends "
-              "within 2*(script length) + 180 s + 3 round trips per segment. 'Eventually' is only ever 'within that bound'."),
-  level_note=E1 + ". A script counted in datagrams that retransmission back-off stretches beyond 6 h of virtual time is counted as inconclusive, not as a pass.",
+              "within a progress-based bound: once the faults are over the connection counts as wedged only when nothing at all (bytes read, snd_una, rcv_nxt, backlog) has moved for "
+              "2*(largest RTO of an outstanding segment + 60 s) + 360 s. 'Eventually' is only ever 'within that bound'. (c) TestC02Session: the same through real sessions "
+              "(scheduler-driven update, post-processor, cipher and FEC framing, listener or dialled server end, vectored writes): everything read, then both backlogs zero."),
+  level_note=E1 + " and " + E2 + ". A script counted in datagrams that retransmission back-off stretches beyond 6 h of virtual time is counted as inconclusive, not as a pass.",
   rule=("Exhaustive cases are distinct by construction (fate vector x configuration); sampled cases by descriptor hash. Non-trivial = the prefix lost at least one PUSH-carrying "
-        "AND at least one ACK-carrying datagram, or contained a timed outage.")),
+        "AND at least one ACK-carrying datagram, or contained a timed outage; for the session test: a datagram was dropped and a segment retransmitted.")),
  "C03": dict(
   level_text=("Generated reader stalls (up to 10 min, anywhere incl. before the first read) x receive windows 1..64 x time windows in which EVERY datagram that carries no data "
               "(WASK, WINS, ack-only; recognised by the independent decoder) is dropped x ordinary loss. C04's invariants run after every step (bounded buffering, nothing new on the wire "
